@@ -87,6 +87,12 @@ func c08PickScalar(r *rand.Rand, forCond bool) rvVal {
 		if forCond {
 			return rvVal{K: "i64", I: c08Ints[r.Intn(len(c08Ints))]}
 		}
+		switch r.Intn(3) {
+		case 0:
+			return rvVal{K: "u", I: []int64{0, 1, 2, 200, 404, 1 << 53, 1<<63 - 1}[r.Intn(7)]}
+		case 1:
+			return rvVal{K: "f32", F: []float64{0, 1, 0.5, 1.5, 200, 0.1, 16777216}[r.Intn(7)]}
+		}
 		return rvVal{K: "arr", I: 1, S: "2"}
 	default:
 		return rvVal{K: "map", I: 1}
@@ -97,12 +103,18 @@ func c08PickScalar(r *rand.Rand, forCond bool) rvVal {
 // decimal text), so that cross-type comparisons hit their equality and off-by-one boundaries.
 func c08Kin(r *rand.Rand, v rvVal) rvVal {
 	x := r.Intn(100)
-	if x < 45 {
+	if v.K == "u" {
+		v = rvVal{K: "int", I: v.I}
+	}
+	if x < 45 && v.K != "f32" {
 		return v
+	}
+	if v.K == "f32" {
+		v = rvVal{K: "f", F: float64(float32(v.F))}
 	}
 	var n int64
 	switch v.K {
-	case "int", "i64":
+	case "int", "i64", "u":
 		n = v.I
 	case "f":
 		if v.F != math.Trunc(v.F) || math.Abs(v.F) > 1<<62 {
@@ -124,6 +136,10 @@ func c08Kin(r *rand.Rand, v rvVal) rvVal {
 		n = k
 	default:
 		return v
+	}
+	if n > -1<<51 && n < 1<<51 && r.Intn(4) == 0 {
+		// a non-integral float next to the integer: an int64 field against `< n+0.5`
+		return rvVal{K: "f", F: float64(n) + []float64{0.5, -0.5, 1.5, 1e-9, -1e-9, 0.25}[r.Intn(6)]}
 	}
 	if n > -1<<62 && n < 1<<62 {
 		n += []int64{0, 0, 0, 1, -1}[r.Intn(5)]
@@ -310,7 +326,57 @@ var c08Tricky = []struct {
 
 // c08GenTricky: such a text as FIELD value against a numeric / bool / text rule value, or as RULE
 // value against a numeric field value, under every Datatype and comparison / membership operator.
+// c08Boolish: values of every kind that the to-bool coercion (ParseBool of the %v text) has to
+// classify: numbers of every wire kind (int64, float64, unsigned, float32), bools, texts.
+func c08Boolish(r *rand.Rand, forCond bool) rvVal {
+	vals := []rvVal{
+		{K: "int", I: 1}, {K: "int", I: 0}, {K: "int", I: 2}, {K: "int", I: -1},
+		{K: "f", F: 1}, {K: "f", F: 0}, {K: "f", F: 2}, {K: "f", F: -1}, {K: "f", F: 0.5}, {K: "f", F: 1.5},
+		{K: "f", F: 1}, {K: "f", F: 1}, {K: "int", I: 1},
+		{K: "b", B: true}, {K: "b", B: false},
+		{K: "s", S: "1"}, {K: "s", S: "0"}, {K: "s", S: "true"}, {K: "s", S: "false"}, {K: "s", S: "t"}, {K: "s", S: "T"},
+		{K: "s", S: "TRUE"}, {K: "s", S: "1.0"}, {K: "s", S: "yes"}, {K: "s", S: ""}, {K: "nil"},
+	}
+	if !forCond {
+		vals = append(vals, rvVal{K: "u", I: 1}, rvVal{K: "u", I: 0}, rvVal{K: "u", I: 2}, rvVal{K: "f32", F: 1}, rvVal{K: "f32", F: 0}, rvVal{K: "f32", F: 0.5})
+	} else {
+		vals = append(vals, rvVal{K: "i64", I: 1}, rvVal{K: "i64", I: 0})
+	}
+	return vals[r.Intn(len(vals))]
+}
+
+// c08GenBool: Datatype bool (and has-root-span, which reads its Value the same way) with boolish
+// values on both sides, every operator.
+func c08GenBool(r *rand.Rand) c08Input {
+	in := c08Input{Seed: int64(1 + r.Intn(1_000_000)), TraceID: fmt.Sprintf("trace-%d", r.Intn(1000)), Root: -1}
+	sv := c08Boolish(r, false)
+	c := c08Cond{Field: "a", Dt: "bool", Val: c08Boolish(r, true),
+		Op: []string{"=", "!=", "=", "!=", "=", "!=", ">", "<", ">=", "<=", "in", "not-in", "exists", "contains"}[r.Intn(14)]}
+	if r.Intn(8) == 0 {
+		c.Dt = []string{"", "string", "int", "float"}[r.Intn(4)]
+	}
+	if (c.Op == "in" || c.Op == "not-in") && r.Intn(2) == 0 {
+		c.Val = rvVal{K: "list", L: []rvVal{c.Val, c08Boolish(r, true)}}
+	}
+	in.Spans = [][]c08Field{{{K: "a", V: sv}}}
+	if r.Intn(3) == 0 {
+		in.Spans = append(in.Spans, []c08Field{{K: "a", V: c08Boolish(r, false)}})
+	}
+	if r.Intn(2) == 0 {
+		in.Root = r.Intn(len(in.Spans))
+	}
+	ru := c08Rule{Name: "bool", Rate: 1, Drop: r.Intn(2) == 0, Scope: []string{"", "span"}[r.Intn(2)], Conds: []c08Cond{c}}
+	if r.Intn(4) == 0 {
+		ru.Conds = append(ru.Conds, c08Cond{Op: "has-root-span", Val: c08Boolish(r, true)})
+	}
+	in.Rules = []c08Rule{ru}
+	return in
+}
+
 func c08GenTricky(r *rand.Rand) c08Input {
+	if r.Intn(3) == 0 {
+		return c08GenBool(r)
+	}
 	in := c08Input{Seed: int64(1 + r.Intn(1_000_000)), TraceID: fmt.Sprintf("trace-%d", r.Intn(1000)), Root: -1}
 	t := c08Tricky[r.Intn(len(c08Tricky))]
 	n := t.Ns[r.Intn(len(t.Ns))]
